@@ -44,6 +44,10 @@ RULE = ("a sender block (custom SBlock calling set_output from its init, from an
         "3000-char string, nested tuples, dicts, 1} as v, v, w, w, v on S (0/2 on_every_output events) and C senders, "
         "InputExp and persistent Input. Exceptions of the code under test are outcomes (err <Class> [aborted]), never "
         "harness errors. "
+        "item names: filters put etype / self / data / source / value / args / kwargs / dest / cls / event into the data, "
+        "destinations p0,p1 plain SBlocks, p2,p3 with the persistence add-on; repeated events: the same Event object "
+        "listed 2-3 times in one or both arguments (and new equal-looking objects as a control) for S, C and Timer "
+        "senders; acts are identified by the event type that is unique per Event object, positions by their order. "
         "distinct = hash of (lines, trace); non-trivial = at least one event reached a destination")
 ASSUMPTIONS = [
     "destinations accept every event and never make the sender assign again while they are served "
@@ -156,6 +160,16 @@ class Probe(edzed.SBlock):
         sender = CTX['sender']
         LOG.append(('d', self.name, etype, dict(data), sender._output if sender is not None else None))
         return None
+
+
+class PProbe(edzed.AddonPersistence, Probe):
+    """the same destination with the persistence add-on in front: its `event` wraps SBlock.event"""
+
+    def get_state(self):
+        return None
+
+    def _restore_state(self, state):
+        pass
 
 
 def _hook_queue(circuit):
@@ -312,7 +326,7 @@ def _wrap(mapping, mode):
     return mapping
 
 
-def make_filter(script, mode, slot, idx, fidx):
+def make_filter(script, mode, tag, fidx):
     op = script[0]
 
     def edit(d):
@@ -360,7 +374,7 @@ def make_filter(script, mode, slot, idx, fidx):
         return _wrap(new, mode)
 
     def efilter(d):
-        LOG.append(('f', slot, idx, fidx, dict(d)))
+        LOG.append(('f', tag, fidx, dict(d)))
         ret = body(d)
         if isinstance(ret, MutableMapping):     # docs: the returned mapping becomes the event data
             left = dict(ret)
@@ -368,7 +382,7 @@ def make_filter(script, mode, slot, idx, fidx):
             left = dict(d)
         else:
             left = None
-        LOG.append(('fr', slot, idx, fidx, left))
+        LOG.append(('fr', tag, fidx, left))
         return ret
     efilter.__name__ = 'script_' + script[0]
     return efilter
@@ -380,19 +394,41 @@ def filt_token(script):
     return '~'.join(script)
 
 
-def ev_token(ev, etype):
+def resolved(scn):
+    """per slot the configured events with the properties of the Event OBJECT they denote.  An event may be
+    `same: [slot, i]` (the very same object as the i-th event of that slot, listed again) or `twin: [slot, i]`
+    (a new, equal-looking object).  `tag` is the event type, unique per object and shared by its twins."""
+    table, out = {}, {'o': [], 'e': []}
+    for slot, lst in (('o', scn['on']), ('e', scn['every'] if scn['kind'] != 'C' else [])):
+        for i, ev in enumerate(lst):
+            ref = ev.get('same') or ev.get('twin')
+            base = table.get(tuple(ref)) if ref else None
+            if base is not None:
+                r = dict(base, how='same' if ev.get('same') else 'twin', ref=tuple(ref))
+            else:
+                r = dict(ev, tag=f'{slot}{i}', how='own', ref=(slot, i))
+                table[(slot, i)] = r
+            out[slot].append(r)
+    return out
+
+
+def ev_token(ev):
     fs = '+'.join(filt_token(f) for f in ev.get('filters') or []) or '-'
-    return f"p{ev['dest']}:{etype}:{fs}"
+    return f"p{ev['dest']}:{ev['tag']}:{fs}"
 
 
-def evs_token(evs, slot):
-    return '|'.join(ev_token(e, f'{slot}{i}') for i, e in enumerate(evs)) or '-'
+def evs_token(evs):
+    return '|'.join(ev_token(e) for e in evs) or '-'
 
 
-def make_events(evs, slot, form, probes):
+def make_events(evs, form, probes, objects):
+    """`evs`: resolved events of one slot; `objects`: the Event objects made so far, by (slot, index)"""
     objs = []
-    for i, ev in enumerate(evs):
-        filters = [make_filter(f, ev.get('fmode', 0) + j, slot, i, j) for j, f in enumerate(ev.get('filters') or [])]
+    for ev in evs:
+        if ev['how'] == 'same':
+            objs.append(objects[ev['ref']])
+            continue
+        filters = [make_filter(f, ev.get('fmode', 0) + j, ev['tag'], j) for j, f in enumerate(ev.get('filters') or [])]
         dest = probes[ev['dest']]
         if ev.get('byname'):
             dest = dest.name
@@ -402,7 +438,10 @@ def make_events(evs, slot, form, probes):
             ef = filters[0]
         else:
             ef = filters if ev.get('fmode', 0) % 4 < 2 else tuple(filters)
-        objs.append(edzed.Event(dest, f'{slot}{i}', efilter=ef))
+        obj = edzed.Event(dest, ev['tag'], efilter=ef)
+        if ev['how'] == 'own':
+            objects[ev['ref']] = obj
+        objs.append(obj)
     if form == 'tuple':
         return tuple(objs)
     if form == 'list':
@@ -426,6 +465,7 @@ SCRIPTS = [['A'], ['R'], ['S', 'x', 'i5'], ['S', 'value', 's7a'], ['S', 'source'
            ['D', 'x'], ['D', 'trigger'], ['C', 'value', 'x'], ['C', 'x', 'y'], ['C', 'previous', 'value'],
            ['T', 'value'], ['T', 'previous'], ['T', 'x'], ['U', 'previous'], ['U', 'value'], ['U', 'y'],
            ['S', 'previous', 'u'], ['S', 'x', 't[i1,n]'],
+           ['S', 'etype', 's78'], ['S', 'self', 'i1'], ['C', 'value', 'etype'], ['M', {'etype': 's79', 'data': 'n'}],
            ['X'], ['X'], ['M', {}], ['M', {'value': 'i7'}], ['M', {'k': 'n', 'z': 't[i1]'}],
            ['D', 'value'], ['D', 'source']]
 
@@ -467,7 +507,14 @@ def random_scenario(rng, maxlen):
         via = rng.choice(['event', 'direct', 'mixed'])
         if via != 'event':
             ops = [('u' if i and rng.random() < 0.08 else v) for i, v in enumerate(ops)]
-    scn = {'kind': kind, 'on': evs('o', non), 'every': evs('e', nev),
+    on_l, ev_l = evs('o', non), evs('e', nev)
+    for slot, lst in (('o', on_l), ('e', ev_l)):        # now and then an Event object is listed again
+        for i in range(1, len(lst)):
+            if rng.random() < 0.12:
+                lst[i] = {'dest': 0, 'filters': [], rng.choice(['same', 'same', 'twin']): [slot, rng.randrange(i)]}
+    if on_l and ev_l and rng.random() < 0.08:
+        ev_l[-1] = {'dest': 0, 'filters': [], 'same': ['o', 0]}
+    scn = {'kind': kind, 'on': on_l, 'every': ev_l,
            'forms': [rng.choice(['auto', 'list', 'tuple']), rng.choice(['auto', 'list', 'tuple'])],
            'via': via, 'ops': ops}
     if kind == 'C':
@@ -499,6 +546,8 @@ def scenarios(rng, tier):
                    'ops': ['i1', 'b1', 'i0', 't[]']}
             yield {'kind': 'C', 'on': [plain, ev], 'every': [], 'forms': ['auto', 'auto'], 'via': 'sim',
                    'ops': ['i1', 'b1', 'i0', 't[]']}
+    yield from keyname_fixed(tier)
+    yield from repeated_fixed(tier)
     yield from fmt_fixed(tier)
     yield from nan_fixed(tier)
     yield from persist_fixed(tier)
@@ -526,6 +575,51 @@ def fmt_fixed(tier):
         yield fsm_scenario('inputexp', {'duration': 1.0, 'expired': 'n', 'initdef': 'u'},
                            [['put', v], ['put', v], ['wait', 1500000], ['put', v]], 1, 2)
         yield persist_scenario('input', [['put', v], ['put', v]], [['put', v]], 1, 2)
+
+
+# names of the parameters of every `event` implementation on the delivery path (SBlock.event, AddonPersistence.event,
+# Event.send, ExtEvent.send) and other innocent-looking item names: none of them is reserved for event data
+KEY_NAMES = ['etype', 'self', 'data', 'source', 'value', 'args', 'kwargs', 'dest', 'cls', 'event']
+
+
+def keyname_fixed(tier):
+    """event data carrying such item names, added by filters, to destinations without (p0, p1) and with
+    (p2, p3) the persistence add-on, from sequential and combinational senders"""
+    for key in KEY_NAMES:
+        for k, pipe in enumerate(([['S', key, 's78']], [['M', {key: 'i7', 'value': 'n'}]],
+                                  [['C', 'value', key], ['D', 'trigger']])):
+            for dest in range(NPROBES):
+                ev = {'dest': dest, 'filters': pipe, 'fmode': 3 * dest + k}
+                plain = {'dest': (dest + 2) % NPROBES, 'filters': []}
+                yield {'kind': 'S', 'on': [ev, plain], 'every': [plain, ev], 'forms': ['auto', 'auto'],
+                       'via': ('event', 'direct')[k % 2], 'ops': ['i1', 'i1', 'i0']}
+                yield {'kind': 'C', 'on': [ev, plain], 'every': [], 'forms': ['auto', 'auto'], 'via': 'sim',
+                       'ops': ['i1', 'i1', 'i0']}
+
+
+def repeated_fixed(tier):
+    """the SAME Event object listed two or three times in on_output / on_every_output (also across the two
+    arguments), and new equal-looking objects as a control: every occurrence is sent, in the configured order"""
+    def A(dest=0, filters=()):
+        return {'dest': dest, 'filters': [list(f) for f in filters]}
+    shapes = []
+    for how in ('same', 'twin'):
+        def again(slot, i, how=how):
+            return {'dest': 0, 'filters': [], how: [slot, i]}
+        shapes += [
+            ([A(), again('o', 0)], []), ([A(), A(1), again('o', 0)], []), ([A(), again('o', 0), again('o', 0)], []),
+            ([A(), A(1), again('o', 1), again('o', 0)], [A(2)]),
+            ([], [A(), again('e', 0)]), ([A(3)], [A(), A(1), again('e', 0)]), ([], [A(), again('e', 0), again('e', 0)]),
+            ([A()], [again('o', 0)]), ([A(), again('o', 0)], [again('o', 0), A(2), again('o', 0)]),
+            ([A(2, [['S', 'x', 'i5']]), again('o', 0)], [A(1, [['T', 'value']]), again('e', 0)]),
+        ]
+    for on, every in shapes:
+        for forms in (['auto', 'auto'], ['tuple', 'list']):
+            yield {'kind': 'S', 'on': on, 'every': every, 'forms': forms, 'via': 'event', 'ops': ['i1', 'b1', 'i0', 'i0']}
+            if on and not any(e.get('same', e.get('twin', ['o']))[0] == 'e' for e in on):
+                yield {'kind': 'C', 'on': on, 'every': [], 'forms': forms, 'via': 'sim', 'ops': ['i1', 'b1', 'i0', 'i0']}
+        yield fsm_scenario('timer', {'t_on': None, 't_off': None, 'restartable': True},
+                           [['ev', 'start'], ['ev', 'start'], ['ev', 'stop']], on=on, every=every)
 
 
 def nan_fixed(tier):
@@ -680,16 +774,17 @@ def _run_once(scn, ops, storage=None):
     sim = Sim()
 
     def build(circuit):
-        probes = [Probe(f'p{i}') for i in range(NPROBES)]
-        on = make_events(scn['on'], 'o', scn['forms'][0], probes)
+        probes = [(Probe if i < 2 else PProbe)(f'p{i}') for i in range(NPROBES)]    # p2, p3: with the add-on
+        res_ev, objects = resolved(scn), {}
+        on = make_events(res_ev['o'], scn['forms'][0], probes, objects)
         if kind == 'S':
-            every = make_events(scn['every'], 'e', scn['forms'][1], probes)
+            every = make_events(res_ev['e'], scn['forms'][1], probes, objects)
             blk = Src(name, first=dec(ops[0]), on_output=on, on_every_output=every)
             CTX['sender'] = blk
             return blk
         if kind == 'P':
             circuit.set_persistent_data(storage)
-            every = make_events(scn['every'], 'e', scn['forms'][1], probes)
+            every = make_events(res_ev['e'], scn['forms'][1], probes, objects)
             cfg, kw = scn['cfg'], {'persistent': True, 'on_output': on, 'on_every_output': every}
             if scn['blk'] == 'input':
                 blk = edzed.Input(name, initdef=dec(cfg['initdef']), **kw)
@@ -702,7 +797,7 @@ def _run_once(scn, ops, storage=None):
             CTX['sender'] = mark(blk)
             return blk
         if kind == 'F':
-            every = make_events(scn['every'], 'e', scn['forms'][1], probes)
+            every = make_events(res_ev['e'], scn['forms'][1], probes, objects)
             cfg = scn['cfg']
             if scn['fsm'] == 'inputexp':
                 blk = mark(edzed.InputExp(name, duration=cfg['duration'], expired=dec(cfg['expired']),
@@ -779,12 +874,23 @@ def _run_once(scn, ops, storage=None):
         if alive:
             stim(lambda: None)
 
+    ctor_exc = None
     try:
         sim.run(build, drive)
+    except Exception as err:
+        if CTX['sender'] is not None:
+            raise
+        ctor_exc = err              # the constructors refused a valid configuration: an outcome of the code under test
     finally:
         log = list(LOG)
         del LOG[:]
         sender, CTX['sender'] = CTX['sender'], None
+    if ctor_exc is not None:
+        res_ev = resolved(scn)
+        return {'lines': [f"output reset {'C' if kind == 'C' else 'S'} {name} {evs_token(res_ev['o'])} {evs_token(res_ev['e'])}"],
+                'trace': [f'err Ctor {type(ctor_exc).__name__}'], 'tags': [f'kind={kind}', 'ctor_refused'], 'nontrivial': False,
+                'assignments': [], 'stray': [], 'name': name, 'final': UNDEF, 'planned': len(ops), 'transitions': 0,
+                'raised': [], 'aborted': None, 'ctor_exc': ctor_exc}
     info['final'] = sender._output
     if sim.init_error is not None:
         # the initialisation failed in the code under test: an outcome, not a harness problem
@@ -859,8 +965,8 @@ def _run_once(scn, ops, storage=None):
     if cur is not None:
         stray.append(('unfinished', cur))
 
-    lines = [f"output reset {'C' if kind == 'C' else 'S'} {name} {evs_token(scn['on'], 'o')} "
-             f"{evs_token(scn['every'] if kind != 'C' else [], 'e')}"]
+    res_ev = resolved(scn)
+    lines = [f"output reset {'C' if kind == 'C' else 'S'} {name} {evs_token(res_ev['o'])} {evs_token(res_ev['e'])}"]
     trace = ['ok']
     ndeliv = 0
     records, assignments = assignments, [a for a in assignments if not a.get('skip')]
@@ -928,10 +1034,9 @@ def act_str(rec):
     if tag == 'q':
         return 'q'
     if tag == 'f':
-        return f'f:{rec[1]}{rec[2]}:{rec[3]}:{enc_data(rec[4])}'
+        return f'f:{rec[1]}:{rec[2]}:{enc_data(rec[3])}'
     if tag == 'd':
-        etype = rec[2]
-        return f'd:{etype}:{rec[1]}:{etype}:{enc_data(rec[3])}:{enc(rec[4])}'
+        return f'd:{rec[1]}:{rec[2]}:{enc_data(rec[3])}:{enc(rec[4])}'
     return '?' + str(tag)
 
 
@@ -962,11 +1067,14 @@ def oracle(scn, res):
 
 def oracle_once(scn, res):
     """Recompute what the property promises from the list of assigned values alone."""
+    if res.get('ctor_exc') is not None:
+        return [_v('configuration_accepted', f'a valid configuration of output events (None / an Event / a sequence of '
+                   f'Events, filters: callables) was refused: {res["ctor_exc"]!r:.300}')]
     out_v = []
     kind = scn['kind']
     name = res['name']
-    on = scn['on']
-    every = scn['every'] if kind != 'C' else []
+    res_ev = resolved(scn)
+    on, every = res_ev['o'], res_ev['e']
     conf = {('o', i): e for i, e in enumerate(on)}
     conf.update({('e', i): e for i, e in enumerate(every)})
     asg = res['assignments']
@@ -1045,24 +1153,28 @@ def oracle_once(scn, res):
             break
         recs = [r for r in recs if r[0] != 'q']
         allr = [r for r in a['recs'] if r[0] != 'q']
-        # which configured events show up, in which order
-        order = []
-        for r in recs:
-            key = (r[1], r[2]) if r[0] == 'f' else (r[2][0], int(r[2][1:]))
-            if not order or order[-1] != key:
-                order.append(key)
+        # which Event objects are used how often (a send starts with the first filter call, or is a bare delivery)
         exp_order = ([('o', i) for i in range(len(on))] if changed else []) + [('e', i) for i in range(len(every))]
-        if sorted(x for x in order if x[0] == 'o') != [x for x in exp_order if x[0] == 'o']:
-            out_v.append(_v('on_output_is_change_history',
-                            f'{where}: changed={changed}, on_output events seen {[x for x in order if x[0] == "o"]}'))
+        nofilt = {e['tag'] for e in on + every if not e.get('filters')}
+        starts = [(r[1] if r[0] == 'f' else r[2]) for r in recs
+                  if (r[0] == 'f' and r[2] == 0) or (r[0] == 'd' and r[2] in nofilt)]
+        want = [conf[k]['tag'] for k in exp_order]
+        if sorted(starts) != sorted(want):
+            o_only = {e['tag'] for e in on} - {e['tag'] for e in every}
+            e_only = {e['tag'] for e in every} - {e['tag'] for e in on}
+            def count(tags, which):
+                return sorted(t for t in tags if t in which)
+            if count(starts, o_only) != count(want, o_only) and len(set(count(want, o_only))) == len(count(want, o_only)):
+                clause = 'on_output_is_change_history'
+            elif count(starts, e_only) != count(want, e_only) and len(set(count(want, e_only))) == len(count(want, e_only)):
+                clause = 'every_output_one_per_assignment'
+            else:
+                clause = 'configured_order'
+            out_v.append(_v(clause, f'{where}: changed={changed}: every configured event is sent once per trigger, an '
+                            f'Event object listed k times k times: sent {starts}, configured {want}'))
             break
-        if sorted(x for x in order if x[0] == 'e') != [x for x in exp_order if x[0] == 'e']:
-            out_v.append(_v('every_output_one_per_assignment',
-                            f'{where}: on_every_output events seen {[x for x in order if x[0] == "e"]}, '
-                            f'configured {len(every)}'))
-            break
-        if order != exp_order:
-            out_v.append(_v('configured_order', f'{where}: order {order}, expected {exp_order}'))
+        if starts != want:
+            out_v.append(_v('configured_order', f'{where}: order {starts}, expected {want}'))
             break
         # each event: data sent, filter pipeline, what the handler received, what it saw
         pos = 0
@@ -1075,10 +1187,10 @@ def oracle_once(scn, res):
             rejected = False
             for j in range(nf):
                 r = allr[pos] if pos < len(allr) else None
-                if r is None or r[0] != 'f' or (r[1], r[2], r[3]) != (*key, j):
+                if r is None or r[0] != 'f' or (r[1], r[2]) != (ev['tag'], j):
                     bad = _v('handler_receives_filter_output', f'{where}: event {key}: filter {j} not called in turn, got {r!r:.200}')
                     break
-                inp = r[4]
+                inp = r[3]
                 if j == 0:
                     data = inp
                     bad = _check_raw(where, key, inp, expect_raw)
@@ -1094,7 +1206,7 @@ def oracle_once(scn, res):
                     bad = _v('handler_receives_filter_output', f'{where}: event {key}: filter {j} did not return')
                     break
                 pos += 2
-                data = fr[4]
+                data = fr[3]
                 if data is None:
                     rejected = True
                     break
@@ -1103,13 +1215,13 @@ def oracle_once(scn, res):
             if rejected:
                 continue
             r = allr[pos] if pos < len(allr) else None
-            if nf and (r is None or r[0] != 'd' or r[2] != f'{key[0]}{key[1]}'):
+            if nf and (r is None or r[0] != 'd' or r[2] != ev['tag']):
                 bad = _v('handler_receives_filter_output', f'{where}: event {key}: the filters left the mapping {data!r} '
                          f'(a returned mapping of any size, also an empty one, is the new data, not a rejection) '
                          f'but the handler was not called, got {r!r:.200}')
                 break
-            if r is None or r[0] != 'd' or r[2] != f'{key[0]}{key[1]}' or r[1] != f"p{ev['dest']}":
-                bad = _v('configured_order', f'{where}: event {key}: expected a delivery of {key[0]}{key[1]} to '
+            if r is None or r[0] != 'd' or r[2] != ev['tag'] or r[1] != f"p{ev['dest']}":
+                bad = _v('configured_order', f'{where}: event {key}: expected a delivery of {ev["tag"]} to '
                          f'p{ev["dest"]}, got {r!r:.200}')
                 break
             pos += 1
